@@ -279,14 +279,19 @@ def array_coef_stream(ctx, n):
         nb = ctx.rng.choice([2, 3, 3, 4])
         nominal = np.array([float(ctx.rng.choice([20., 35., 60., 90., 120.])) + 4 * j for j in range(nb)])
         T2, phi = float(ctx.rng.choice([40., 80.])), float(ctx.rng.choice([0., 30.]))
-        case = {"nominal": nominal.tolist(), "T2": T2, "phi": phi}
+        # half of the cases carry a SECOND batch axis (two T2 values on axis 1): the coefficient array then has fewer
+        # axes than the state matrix and must stay aligned with the first one
+        two = ctx.rng.random() < 0.5
+        T2v = np.array([[T2, T2 + 25.0]]) if two else T2
+        case = {"nominal": nominal.tolist(), "T2": T2, "phi": phi, "second_axis": two}
 
         def seq(b1, nom, diff):
             kw = {"order1": {"B1": {"alpha": nom}}} if diff else {}
-            return [epg.T(nom * b1, phi, **kw), epg.S(1), epg.E(6.0, 900.0, T2, 0.01), epg.T(nom * b1 * 2, 10.0, **({"order1": {"B1": {"alpha": 2 * nom}}} if diff else {})),
+            return [epg.T(nom * b1, phi, **kw), epg.S(1), epg.E(6.0, 900.0, T2v if (diff and two) else T2, 0.01), epg.T(nom * b1 * 2, 10.0, **({"order1": {"B1": {"alpha": 2 * nom}}} if diff else {})),
                     epg.S(1), epg.ADC]
         try:
-            jac = np.asarray(epg.simulate(seq(1.0, nominal, True), probe=epg.Jacobian("B1"))).reshape(-1)
+            jac = np.asarray(epg.simulate(seq(1.0, nominal, True), probe=epg.Jacobian("B1")))
+            jac = (jac.reshape(nb, 2)[:, 0] if two else jac).reshape(-1)      # first T2 value: the one the scalar runs use
         except Exception as e:
             ctx.report("Jacobian with array coefficients raised %s: %s" % (type(e).__name__, str(e)[:160]), {"arraycoef": case}, found_input=True,
                        signature={"site": "array-coefficient", "why": "raises"})
